@@ -420,3 +420,42 @@ Proof.
 Qed.
 
 End Proofs.
+
+(* ---------------------------------------------------------------------------------------------- *)
+(* witnesses (vm_compute): the hypotheses of the theorems are reachable, and the setting shipped    *)
+(* before the repair commit is refuted by the traces of DESIGN section 6 / F3                       *)
+(* ---------------------------------------------------------------------------------------------- *)
+Local Open Scope Z_scope.
+
+(* capacity 1: a value is still parked in the input buffer when the cancel arrives; it is delivered, then closed *)
+Definition tr_cancel_parked : list ev :=
+  [ESent 1; ECancel; EPump AWake; EPump ADone; EPump ARecv; EPump ADefault; EPump ASend; EPump AReturn;
+   ERcvd 1; ERcvdClosed].
+Lemma cancel_parked_run :
+  exists s, exec 1 1 repaired tr_cancel_parked = Some s
+            /\ at_cancel s = Some [1] /\ seen_closed s = true /\ rcvd s = [1] /\ panic s = false.
+Proof. eexists. split; [vm_compute; reflexivity|]. repeat split. Qed.
+
+(* capacity 0: send (rendezvous), sender close, the backlog is flushed to the receiver, then closed *)
+Definition tr_close_backlog : list ev :=
+  [ESent 1; EPump AWake; ECloseSnd; EPump AWake; EPump ARecv; ERcvd 1; EPump AWake; EPump AReturn; ERcvdClosed].
+Lemma close_backlog_run :
+  exists s, exec 0 0 repaired tr_close_backlog = Some s
+            /\ snd_closed s = true /\ at_cancel s = None /\ seen_closed s = true /\ rcvd s = [1] /\ sent s = [1]
+            /\ panic s = false.
+Proof. eexists. split; [vm_compute; reflexivity|]. repeat split. Qed.
+
+(* the initial state is quiescent, for any capacities: never_blocks_sender is not vacuous *)
+Lemma init_quiescent cin ceg : quiescent cin ceg repaired init.
+Proof. intros a. destruct a; reflexivity. Qed.
+
+(* the SHIPPED setting (defer close(in), no drain on cancel, no flush on sender close), same traces: *)
+Lemma shipped_close_crashes :
+  exists s, exec 0 0 shipped [ESent 1; EPump AWake; ECloseSnd; EPump AWake; EPump ARecv; EPump AReturn] = Some s
+            /\ panic s = true /\ rcvd s = [] /\ sent s = [1].
+Proof. eexists. split; [vm_compute; reflexivity|]. repeat split. Qed.
+
+Lemma shipped_cancel_loses :
+  exists s, exec 1 1 shipped [ESent 1; ECancel; EPump AWake; EPump ADone; EPump AReturn; ERcvdClosed] = Some s
+            /\ at_cancel s = Some [1] /\ seen_closed s = true /\ rcvd s = [] /\ inbuf s = [1].
+Proof. eexists. split; [vm_compute; reflexivity|]. repeat split. Qed.
